@@ -53,7 +53,7 @@ def apply_bits_closure(fc, fn, struct, post_clauses, lifetime=None):
 def apply_signed_closures(fc, fn, widths):
     if widths:
         got = fc.replace_in_re(fn, SIGNED_RE, r'|\1: (&[u8], usize)| -> (r: IResult<(&[u8], usize), i32>) requires cur_ok(\1), ensures signed_post(\1, \2, r), { signed_i32(\1, \2) }', occ='all')
-        found = sorted(int(g[1]) for g in got)
+        found = sorted(int(g[1]) for g in got) if got else []
         # the widths themselves are not part of the anchor: a changed width is for the layout postcondition to refute
 
 
